@@ -26,6 +26,8 @@ import (
 	banktypes "github.com/cosmos/cosmos-sdk/x/bank/types"
 	transfertypes "github.com/cosmos/ibc-go/v7/modules/apps/transfer/types"
 	clienttypes "github.com/cosmos/ibc-go/v7/modules/core/02-client/types"
+	channeltypes "github.com/cosmos/ibc-go/v7/modules/core/04-channel/types"
+	host "github.com/cosmos/ibc-go/v7/modules/core/24-host"
 	ibcgotesting "github.com/cosmos/ibc-go/v7/testing"
 	"github.com/ethereum/go-ethereum/common"
 	ethcrypto "github.com/ethereum/go-ethereum/crypto"
@@ -39,6 +41,7 @@ import (
 	"github.com/haqq-network/haqq/utils"
 	coinomicstypes "github.com/haqq-network/haqq/x/coinomics/types"
 	erc20types "github.com/haqq-network/haqq/x/erc20/types"
+	"github.com/haqq-network/haqq/x/evm/statedb"
 )
 
 type IBCOp struct {
@@ -50,34 +53,56 @@ type IBCOp struct {
 }
 
 type IBCCase struct {
-	Ops []IBCOp `json:"ops"`
+	Ops   []IBCOp `json:"ops"`
+	Token string  `json:"token,omitempty"` // "" honest ERC20MinterBurnerDecimals | pausable (hand-assembled, truthful balances, can be paused)
 }
 
 func genIBCCase(t *rapid.T) IBCCase {
 	c := IBCCase{}
 	n := rapid.IntRange(2, 7).Draw(t, "nops")
 	for i := 0; i < n; i++ {
-		op := IBCOp{K: rapid.SampledFrom([]string{"out-erc20", "out-erc20", "back-erc20", "in-coin", "in-coin", "out-coin", "toggle", "convert"}).Draw(t, "k")}
+		op := IBCOp{K: rapid.SampledFrom([]string{"out-erc20", "out-erc20", "back-erc20", "back-erc20", "in-coin", "in-coin", "out-coin", "toggle", "convert", "pause"}).Draw(t, "k")}
 		op.Amt = rapid.SampledFrom([]int64{1, 7, 100, 1000, 999999}).Draw(t, "amt")
 		op.Mode = rapid.SampledFrom([]string{"ok", "ok", "ok", "bad-receiver", "timeout"}).Draw(t, "mode")
 		op.Pair = rapid.IntRange(0, 1).Draw(t, "pair")
 		op.Dir = rapid.IntRange(0, 1).Draw(t, "dir")
 		c.Ops = append(c.Ops, op)
 	}
+	if rapid.IntRange(0, 2).Draw(t, "pausable") == 0 {
+		c.Token = "pausable"
+		if rapid.Bool().Draw(t, "pause-scenario") {
+			// tokens go out while the token cooperates, it is paused, and then they come home / time out / bounce
+			mode := rapid.SampledFrom([]string{"ok", "timeout", "bad-receiver"}).Draw(t, "ps-mode")
+			sc := []IBCOp{{K: "out-erc20", Amt: 1000, Mode: "ok"}, {K: "pause", Pair: 1}}
+			switch mode {
+			case "ok":
+				sc = append(sc, IBCOp{K: "back-erc20", Amt: 100, Mode: "ok"})
+			default:
+				// the user holds the coin form (converted while the token cooperated), the token is paused, a transfer
+				// of coins goes out and is refunded (timeout / error acknowledgement): the refund's re-conversion fails
+				sc = []IBCOp{{K: "convert", Amt: 5000, Pair: 1, Dir: 1}, {K: "pause", Pair: 1}, {K: "out-erc20", Amt: 100, Mode: mode}}
+			}
+			c.Ops = append(sc, c.Ops...)
+			if len(c.Ops) > 8 {
+				c.Ops = c.Ops[:8]
+			}
+		}
+	}
 	return c
 }
 
 type ibcEnv struct {
-	t      *testing.T
-	coord  *ibcgotesting.Coordinator
-	H, B   *ibcgotesting.TestChain
-	path   *haqqibc.Path
-	app    *haqqapp.Haqq
-	token  common.Address // ERC20-origin token
-	denomT string         // its coin denomination (erc20/0x..)
-	denomV string         // voucher of B's "stake" on Haqq (ibc/..), registered coin pair
-	tokenV common.Address // ERC20 representation of the voucher
-	denomB string         // voucher of denomT on chain B (ibc/..)
+	t         *testing.T
+	coord     *ibcgotesting.Coordinator
+	H, B      *ibcgotesting.TestChain
+	path      *haqqibc.Path
+	app       *haqqapp.Haqq
+	token     common.Address // ERC20-origin token
+	denomT    string         // its coin denomination (erc20/0x..)
+	denomV    string         // voucher of B's "stake" on Haqq (ibc/..), registered coin pair
+	tokenV    common.Address // ERC20 representation of the voucher
+	denomB    string         // voucher of denomT on chain B (ibc/..)
+	tokenKind string
 }
 
 // ibcDeliver signs msgs with the chain's sender key and delivers them in a block of their own; unlike the
@@ -111,8 +136,11 @@ func ibcDeliver(chain *ibcgotesting.TestChain, msgs ...sdk.Msg) (*sdk.Result, er
 	return res, err
 }
 
-func newIBCEnv(t *testing.T) *ibcEnv {
+func newIBCEnv(t *testing.T, tokenKind ...string) *ibcEnv {
 	e := &ibcEnv{t: t}
+	if len(tokenKind) > 0 {
+		e.tokenKind = tokenKind[0]
+	}
 	e.coord = haqqibc.NewCoordinator(t, 1, 1)
 	e.H = e.coord.GetChain(ibcgotesting.GetChainID(1))
 	e.B = e.coord.GetChain(ibcgotesting.GetChainID(2))
@@ -143,12 +171,20 @@ func newIBCEnv(t *testing.T) *ibcEnv {
 	sender := common.BytesToAddress(e.H.SenderAccount.GetAddress().Bytes())
 	ctor, err := abi.Pack("", "Native", "NAT", uint8(18))
 	must(err)
-	nonce := e.app.EvmKeeper.GetNonce(ctx, sender)
-	_, err = e.app.Erc20Keeper.CallEVMWithData(ctx, sender, nil, append(append([]byte{}, contracts.ERC20MinterBurnerDecimalsContract.Bin...), ctor...), true)
-	must(err)
-	e.token = ethcrypto.CreateAddress(sender, nonce)
-	_, err = e.app.Erc20Keeper.CallEVM(ctx, abi, sender, e.token, true, "mint", sender, big.NewInt(1_000_000_000_000))
-	must(err)
+	if e.tokenKind == "pausable" {
+		db := statedb.New(ctx, e.app.EvmKeeper, statedb.NewEmptyTxConfig(common.BytesToHash(ctx.HeaderHash().Bytes())))
+		db.SetCode(c10QuirkAddr, c10QuirkRuntime())
+		db.SetState(c10QuirkAddr, common.BytesToHash(sender.Bytes()), common.BigToHash(big.NewInt(1_000_000_000_000)))
+		must(db.Commit())
+		e.token = c10QuirkAddr
+	} else {
+		nonce := e.app.EvmKeeper.GetNonce(ctx, sender)
+		_, err = e.app.Erc20Keeper.CallEVMWithData(ctx, sender, nil, append(append([]byte{}, contracts.ERC20MinterBurnerDecimalsContract.Bin...), ctor...), true)
+		must(err)
+		e.token = ethcrypto.CreateAddress(sender, nonce)
+		_, err = e.app.Erc20Keeper.CallEVM(ctx, abi, sender, e.token, true, "mint", sender, big.NewInt(1_000_000_000_000))
+		must(err)
+	}
 	pair, err := e.app.Erc20Keeper.RegisterERC20(ctx, e.token)
 	must(err)
 	e.denomT = pair.Denom
@@ -193,16 +229,33 @@ func (e *ibcEnv) transfer(fromHaqq bool, denom string, amt int64, mode string) (
 	if err != nil {
 		return false, "no packet in events: " + err.Error()
 	}
+	// relaying is done with deliveries that tolerate a failing transaction (a refund whose re-conversion fails makes
+	// the whole acknowledgement / timeout transaction fail: the packet then simply stays pending)
 	switch mode {
 	case "timeout":
 		e.coord.CommitNBlocks(dst.Chain, 3)
 		must(src.UpdateClient())
-		if err := src.TimeoutPacket(packet); err != nil {
-			return false, "timeout relay: " + err.Error()
+		proof, proofHeight := dst.QueryProof(host.PacketReceiptKey(packet.GetDestPort(), packet.GetDestChannel(), packet.GetSequence()))
+		nextSeqRecv, _ := dst.Chain.App.GetIBCKeeper().ChannelKeeper.GetNextSequenceRecv(dst.Chain.GetContext(), dst.ChannelConfig.PortID, dst.ChannelID)
+		msg := channeltypes.NewMsgTimeout(packet, nextSeqRecv, proof, proofHeight, src.Chain.SenderAccount.GetAddress().String())
+		if _, err := ibcDeliver(src.Chain, msg); err != nil {
+			return true, "timeout transaction failed (packet stays pending): " + err.Error()
 		}
 	default:
-		if err := e.path.RelayPacket(packet); err != nil {
-			return false, "relay: " + err.Error()
+		must(dst.UpdateClient())
+		proof, proofHeight := src.Chain.QueryProof(host.PacketCommitmentKey(packet.GetSourcePort(), packet.GetSourceChannel(), packet.GetSequence()))
+		res, err := ibcDeliver(dst.Chain, channeltypes.NewMsgRecvPacket(packet, proof, proofHeight, dst.Chain.SenderAccount.GetAddress().String()))
+		if err != nil {
+			return true, "receive transaction failed (packet stays pending): " + err.Error()
+		}
+		must(src.UpdateClient())
+		ack, err := ibcgotesting.ParseAckFromEvents(res.GetEvents())
+		if err != nil {
+			return true, "no acknowledgement written: " + err.Error()
+		}
+		aproof, aheight := dst.QueryProof(host.PacketAcknowledgementKey(packet.GetDestPort(), packet.GetDestChannel(), packet.GetSequence()))
+		if _, err := ibcDeliver(src.Chain, channeltypes.NewMsgAcknowledgement(packet, ack, aproof, aheight, src.Chain.SenderAccount.GetAddress().String())); err != nil {
+			return true, "acknowledgement transaction failed (packet stays pending): " + err.Error()
 		}
 	}
 	return true, ""
@@ -211,7 +264,7 @@ func (e *ibcEnv) transfer(fromHaqq bool, denom string, amt int64, mode string) (
 func runIBC(st *ev.Stats, t *testing.T, c IBCCase) string {
 	st.Eval()
 	fail := func(key, what string) string { return st.Discrepancy(key, what, c) }
-	e := newIBCEnv(t)
+	e := newIBCEnv(t, c.Token)
 	app := e.app
 	abi := contracts.ERC20MinterBurnerDecimalsContract.ABI
 	module := authtypes.NewModuleAddress(erc20types.ModuleName)
@@ -237,6 +290,7 @@ func runIBC(st *ev.Stats, t *testing.T, c IBCCase) string {
 		}
 		return out[0].(*big.Int)
 	}
+	pendingT := new(big.Int) // ERC20-origin coins of packets whose refund transaction failed (still in flight)
 	check := func(step int, op IBCOp) string {
 		ctx := e.H.GetContext()
 		bctx := e.B.GetContext()
@@ -252,7 +306,8 @@ func runIBC(st *ev.Stats, t *testing.T, c IBCCase) string {
 			return fail("ibc-peg:coin-origin:"+op.K+":"+op.Mode, fmt.Sprintf("after op %d %+v: ERC20 supply of the voucher token is %s, the module escrows %s %s", step, op, tsV, escV, e.denomV))
 		}
 		// cross-chain conservation
-		if a, b := bank.GetBalance(ctx, escrowH, e.denomT).Amount, bbank.GetSupply(bctx, e.denomB).Amount; !a.Equal(b) {
+		// (a refund that could not be processed leaves its packet pending: those coins are still in the escrow)
+		if a, b := bank.GetBalance(ctx, escrowH, e.denomT).Amount, bbank.GetSupply(bctx, e.denomB).Amount.Add(sdkmath.NewIntFromBigInt(pendingT)); !a.Equal(b) {
 			return fail("ibc-conservation:erc20-origin:"+op.K+":"+op.Mode, fmt.Sprintf("after op %d %+v: Haqq channel escrow holds %s %s, chain B has %s vouchers", step, op, a, e.denomT, b))
 		}
 		if a, b := bbank.GetBalance(bctx, escrowB, sdk.DefaultBondDenom).Amount, bank.GetSupply(ctx, e.denomV).Amount.SubRaw(1); !a.Equal(b) {
@@ -268,12 +323,17 @@ func runIBC(st *ev.Stats, t *testing.T, c IBCCase) string {
 		ctx := e.H.GetContext()
 		userTok, userCoin := bal(e.token, hHex), app.BankKeeper.GetBalance(ctx, hAddr, e.denomT).Amount.BigInt()
 		total0 := new(big.Int).Add(userTok, userCoin)
+		value0 := new(big.Int).Add(total0, app.BankKeeper.GetBalance(ctx, escrowH, e.denomT).Amount.BigInt())
 		userTokV, userCoinV := bal(e.tokenV, hHex), app.BankKeeper.GetBalance(ctx, hAddr, e.denomV).Amount.BigInt()
 		totalV0 := new(big.Int).Add(userTokV, userCoinV)
 		ok, why := false, ""
 		switch op.K {
 		case "out-erc20":
 			ok, why = e.transfer(true, e.denomT, op.Amt, op.Mode)
+			if ok && strings.Contains(why, "packet stays pending") {
+				pendingT.Add(pendingT, big.NewInt(op.Amt))
+				st.Class("refund-pending:" + op.Mode)
+			}
 		case "back-erc20":
 			have := e.B.GetSimApp().BankKeeper.GetBalance(e.B.GetContext(), e.B.SenderAccount.GetAddress(), e.denomB).Amount
 			if have.IsZero() {
@@ -297,6 +357,18 @@ func runIBC(st *ev.Stats, t *testing.T, c IBCCase) string {
 			}
 			op.Amt = amt
 			ok, why = e.transfer(true, e.denomV, amt, op.Mode)
+		case "pause":
+			if c.Token != "pausable" {
+				continue
+			}
+			sel := "0x0a11ce03" // pause
+			if op.Pair == 0 {
+				sel = "0x0a11ce04" // resume
+			}
+			_, err := app.Erc20Keeper.CallEVMWithData(e.H.GetContext(), hHex, &e.token, common.FromHex(sel), true)
+			ok = err == nil
+			e.coord.CommitNBlocks(e.H, 1)
+			must(e.H.SenderAccount.SetSequence(app.AccountKeeper.GetAccount(e.H.GetContext(), hAddr).GetSequence()))
 		case "toggle":
 			d := e.denomV
 			if op.Pair == 1 {
@@ -353,6 +425,18 @@ func runIBC(st *ev.Stats, t *testing.T, c IBCCase) string {
 			case op.K == "out-coin" && op.Mode == "ok":
 				wantV = -op.Amt
 			}
+		}
+		// value conservation for the ERC20-origin token: what the user holds on Haqq (both representations) plus what
+		// the channel escrow holds for the vouchers on the other chain never changes; coins of that denomination
+		// sitting anywhere else (e.g. stranded in the module account by a half-finished conversion) are lost value
+		value1 := new(big.Int).Add(total1, app.BankKeeper.GetBalance(ctx, escrowH, e.denomT).Amount.BigInt())
+		if value1.Cmp(value0) != 0 {
+			return fail("ibc-value-lost:"+cls, fmt.Sprintf("op %d %+v (ok=%v %s): user holdings + channel escrow of %s went %s -> %s; module account holds %s coins, %s tokens", i, op, ok, trunc(why), e.denomT, value0, value1,
+				app.BankKeeper.GetBalance(ctx, module, e.denomT).Amount, bal(e.token, moduleHex)))
+		}
+		if c.Token == "pausable" {
+			// with a token that may refuse transfers a refund can stay pending: only conservation is required
+			continue
 		}
 		if dT.Cmp(big.NewInt(wantT)) != 0 || dV.Cmp(big.NewInt(wantV)) != 0 {
 			return fail("ibc-user-holdings:"+cls, fmt.Sprintf("op %d %+v (ok=%v %s): user's %s holdings (coin+token) changed by %s (want %d), voucher holdings by %s (want %d)", i, op, ok, trunc(why), e.denomT, dT, wantT, dV, wantV))
